@@ -11,7 +11,7 @@ import ast
 import z3
 
 from .values import (SymV, Opaque, AbsVal, Obj, ClassRef, ExtClass, FuncRef, BoundMethod, ExtFunc, ModRef,
-                     SuperProxy, PyList, PyDict, PySet, SymSeq, SymDict, SymColl, SDict, NpCell, NpArr,
+                     SuperProxy, PyList, PyDict, PySet, SymSeq, SymDict, SymColl, SDict, NpCell, NpArr, RecDict,
                      NpSlice, SliceV, EngineLimit, is_sym, ival, rval, bval, nameval, mk, kind_of, A1, A2)
 from . import builtins as B
 
@@ -895,9 +895,19 @@ class Interp:
                     parts.append(str(x))
                 elif x is None and v.format_spec is None:
                     parts.append("None")
+                elif isinstance(x, SymV) and x.ty == "name" and v.format_spec is None and v.conversion == -1:
+                    parts.append(x)
                 else:
                     return Opaque("fstring")
-        return "".join(parts)
+        syms = [q for q in parts if isinstance(q, SymV)]
+        if not syms:
+            return "".join(parts)
+        if len(syms) == 1:
+            # one symbolic name inside constant text: a function of (template, name) - ASSUMED, see builtins.STR_FMT1
+            from .values import intern_name, nameval
+            template = "".join("{}" if isinstance(q, SymV) else q.replace("{", "{{").replace("}", "}}") for q in parts)
+            return SymV(B.STR_FMT1(z3.IntVal(intern_name("fmt:" + template)), nameval(syms[0])), "name")
+        return Opaque("fstring")
 
     def ex_IfExp(self, n, fr):
         c = self.eval(n.test, fr)
